@@ -20,7 +20,9 @@ CONSTANTS MaxClasses,    \* classes per program (2 or 3)
 
 Acc == {"pub", "prot", "priv"}
 BaseRels == {"base_pub", "base_prot", "base_priv", "base_vpub"}
-Rels == {"none", "member"} \cup BaseRels
+Rels == {"none", "member", "arrmember", "staticmember"} \cup BaseRels
+\* "arrmember": a data member of type C[2] (same rules as a member); "staticmember": a static data
+\* member of class type (no effect on the special members)
 
 VARIABLES cls, done
 vars == <<cls, done>>
@@ -28,7 +30,7 @@ vars == <<cls, done>>
 N == Len(cls)
 Bases(i) == {j \in 1..(i - 1) : cls[i].rel[j] \in BaseRels}
 VBases(i) == {j \in 1..(i - 1) : cls[i].rel[j] = "base_vpub"}
-Members(i) == {j \in 1..(i - 1) : cls[i].rel[j] = "member"}
+Members(i) == {j \in 1..(i - 1) : cls[i].rel[j] \in {"member", "arrmember"}}
 
 \* special-member "state": an access level, "deleted", or "absent" (not declared, none implicit)
 FromDerived(s) == s \in {"pub", "prot"}
@@ -78,7 +80,7 @@ HasVirtualF(i) == cls[i].vf \in {"virt", "pure"} \/ \E b \in Bases(i) : HasVirtu
 AbstractF(i) ==
   CASE cls[i].vf = "pure" -> TRUE
     [] cls[i].vf \in {"virt", "over"} -> FALSE
-    [] OTHER -> \E b \in Bases(i) : AbstractF(b)
+    [] OTHER -> \E b \in Bases(i) : AbstractF(b)      \* "none", and "overc": f() const overloads, it does not override
 Polymorphic(i) ==
   \/ cls[i].vf \in {"virt", "pure"} \/ cls[i].dtvirt
   \/ \E b \in Bases(i) : Polymorphic(b)
@@ -120,6 +122,7 @@ RelChoices(i) == {r \in [1..(i - 1) -> Rels] : \A j \in 1..(i - 1) : r[j] \in Re
 WFClass(i) == LET c == cls[i] IN
   /\ (c.dtvirt => c.dt # "none")
   /\ (c.vf = "over" => \E b \in Bases(i) : HasVirtualF(b))      \* "override" needs something to override
+  /\ (c.vf = "overc" => \E b \in Bases(i) : HasVirtualF(b))     \* only interesting next to an inherited f()
   /\ \A m \in Members(i) : ~AbstractF(m)                        \* no member of abstract class type
   \* a base with a virtual destructor must have a usable (or deleted) one, else the derived dtor is ill-formed
   /\ \A b \in Bases(i) : Polymorphic(b) /\ cls[b].dtvirt => (FromDerived(DtorState(b)) \/ DtorState(b) = "deleted")
@@ -128,7 +131,7 @@ WFClass(i) == LET c == cls[i] IN
   /\ \A b \in Bases(i) : VirtDtor(b) => ((DtorState(i) = "deleted") <=> (DtorState(b) = "deleted"))
   \* final-overrider subtleties (dominance through virtual bases, several sub-objects) are excluded:
   \* a class with two or more bases that know f must declare f itself
-  /\ (Cardinality({b \in Bases(i) : HasVirtualF(b)}) >= 2 => c.vf # "none")
+  /\ (Cardinality({b \in Bases(i) : HasVirtualF(b)}) >= 2 => c.vf \notin {"none", "overc"})
   \* a base may be named only once, and not both as direct and (through another base) indirect non-virtual base
   /\ \A b \in Bases(i) : \A b2 \in Bases(i) : b2 > b => b \notin Bases(b2)
   \* the most derived class initialises virtual bases itself; keep those at distance one
